@@ -131,15 +131,18 @@ impl TvfsBuilder {
             })
             .collect();
 
-        // First pass: estimate CFT size with minimum offs sizes
-        let est_entry_size_estimate = header.cft_entry_size();
-        let cft_size_estimate = (cft_entries.len() * est_entry_size_estimate) as u32;
-        header.cft_table_size = cft_size_estimate;
-
-        // Now recompute with correct offs sizes
-        let entry_size = header.cft_entry_size();
-        let cft_size = (cft_entries.len() * entry_size) as u32;
-        header.cft_table_size = cft_size;
+        // With PATCH_SUPPORT the entry size depends on the CFT offset width,
+        // which depends on the table size. Start from the minimum width and
+        // iterate until the entry size is stable (the width only ever grows).
+        let mut entry_size = header.cft_entry_size();
+        loop {
+            header.cft_table_size = (cft_entries.len() * entry_size) as u32;
+            let next_entry_size = header.cft_entry_size();
+            if next_entry_size == entry_size {
+                break;
+            }
+            entry_size = next_entry_size;
+        }
 
         // Assign offsets to CFT entries
         let cft_entries: Vec<ContainerEntry> = cft_entries
